@@ -34,6 +34,7 @@ def dispatch (j : Json) : Except String Json := do
   | "cn_fold" => opCNFold j
   | "cn_decision" => opCNDecision j
   | "params_update" => opParamsUpdate j
+  | "params_load" => opParamsLoad j
   | "split_param" => opSplitParam j
   | "param_table" => opParamTable j
   | "guard" => opGuard j
